@@ -316,6 +316,7 @@ func c04muts(typ string) []c04mut {
 	add("eon", "eon=2^63-1", func(s *c04spec) { s.Eon = math.MaxInt64 })
 	if typ == "shares" {
 		add("index", "index=other member", func(s *c04spec) { s.KeyperIndex = (s.KeyperIndex + 1) % 3 })
+		add("index", "index=the receiver's own", func(s *c04spec) { s.KeyperIndex = 1 })
 		add("index", "index=n", func(s *c04spec) { s.KeyperIndex = 3 })
 		add("index", "index=n+1", func(s *c04spec) { s.KeyperIndex = 4 })
 		add("index", "index=2^63", func(s *c04spec) { s.KeyperIndex = 1 << 63 })
